@@ -13,14 +13,16 @@ import sys
 HERE = os.path.dirname(os.path.dirname(os.path.abspath(__file__)))
 pid, var = sys.argv[1], sys.argv[2]
 owner_only = '--owner-only' in sys.argv
-src = f'/tmp/seed/{pid}'
-dst = os.path.join(HERE, 'seeded', f'{pid}-{var}')
+round_ = os.environ.get('SEED_ROUND', '')          # '' = first round (/tmp/seed), '2' = /tmp/seed2, ...
+src = f'/tmp/seed{round_}/{pid}'
+dst = os.path.join(HERE, 'seeded', f'{pid}-{("r" + round_) if round_ else ""}{var}')
 os.makedirs(dst, exist_ok=True)
 shutil.copy(f'{src}/patch_{var}.diff', f'{dst}/patch.diff')
 shutil.copy(f'{src}/demo_{var}.py', f'{dst}/demo.py')
 notes = open(f'{src}/notes_{var}.txt').read() if os.path.exists(f'{src}/notes_{var}.txt') else ''
 cmd = ['/venv/bin/python', os.path.join(HERE, 'tools', 'seedtest.py'), f'{dst}/patch.diff', '--demo', f'{dst}/demo.py']
 cmd += ['--props', pid] if owner_only else ['--all']
+cmd += ['--keep-as', os.path.basename(dst)]
 r = subprocess.run(cmd, capture_output=True, text=True, env=dict(os.environ, VERIF_PROCS='6'))
 try:
     res = json.loads(r.stdout)
@@ -32,7 +34,7 @@ errors = sorted(p for p, c in res.get('checks', {}).items() if c['rc'] == 2)
 confirmed = (res.get('apply_rc') == 0 and res.get('pytest_rc') == 0 and res.get('demo_clean_rc') == 0
              and res.get('demo_patched_rc') not in (0, None))
 meta = {
-    'property': pid, 'variant': var, 'origin': 'independent sub-agent given only the property text and a scratch worktree',
+    'property': pid, 'variant': (('r' + round_) if round_ else '') + var, 'origin': 'independent sub-agent given only the property text and a scratch worktree',
     'what_it_needs_to_manifest': notes.strip(),
     'confirmed': confirmed,
     'confirmation': {'patch_applies_to_repo_HEAD': res.get('apply_rc') == 0,
